@@ -219,8 +219,10 @@ Definition attr_body (prefix : ch) (s : str) : option (nat * str) :=
       else None
   | _ => None
   end.
+(* the scan runs over the literal-free format expression (separate_string_literals(query_text)[0]):
+   text inside string literals is not a variable (fix e1c769f of finding D12) *)
 Definition attr_idents (query : str) (prefix : ch) : list str :=
-  infos (find_all (ctx_start (attr_body prefix)) query).
+  infos (find_all (ctx_start (attr_body prefix)) (fst (separate_string_literals LPy query))).
 Fixpoint attr_vars (prefix : ch) (names : list str) (ids : list str) (m : vmap) : vres vmap :=
   match ids with
   | [] => VOk m
